@@ -235,7 +235,7 @@ def canon(line):
     """the part of a result line that model and implementation must agree on"""
     if line.startswith("n="):
         return " ".join(t for t in line.split() if t.startswith("n=") or t.startswith("h="))
-    if line.startswith("next="):
+    if line.startswith("next=") or line.startswith("rounding"):
         return line.strip()
     return " | ".join(f"out={d.get('out')} cost={d.get('cost')}" for d in parse_segments(line))
 
@@ -378,6 +378,11 @@ def run(ctx):
 
     lines = [f"t {W}" for W in (2, 3, 4, 5, 6)] + [c[0] for c in cases]
     metas = [None] * 5 + [c[1] for c in cases]
+    for W in (2, 3, 4, 5, 6):      # the integer model of std::round(m / float(L)), all m the decoder can produce
+        lines.append(f"r {W}")
+        metas.append(None)
+        ctx.evaluations += 80001
+        ctx.count("rounding-model-check", 80001)
     # exhaustive sweeps over {-L,0,+L}^IN
     xs = []
     if ctx.tier == "thorough":
@@ -432,6 +437,9 @@ def run(ctx):
             la, lb = ca.split("\n"), cb.split("\n")
             differing = [i for i in range(min(len(la), len(lb))) if la[i] != lb[i]]
             matched = None
+            if any(lines[i][0] == "r" for i in differing):
+                i = [i for i in differing if lines[i][0] == "r"][0]
+                ctx.tie_broken("c02-rounding-model", f"std::round(m / float(L)) differs from (2m+L)/(2L): {la[i]}")
             if len(la) == len(lb) and all(lines[i][0] in "qx" for i in differing):
                 # a different but admissible tie-break rule?  (the theorems hold for all eight)
                 sub = [lines[i] for i in range(len(lines))]
@@ -449,7 +457,13 @@ def run(ctx):
                 ctx.log(f"tie-break variant: implementation matches model rule {matched} on every case")
                 differing = []
             else:
-                ctx.diff_lines("viterbi-impl-vs-model", lines, ca, cb)
+                if len(la) != len(lb):
+                    ctx.diff_lines("viterbi-impl-vs-model", lines, ca, cb)
+                else:
+                    i = min(differing, key=lambda i: (lines[i][0] != "q", len(lines[i])))
+                    ctx.tie_broken("viterbi-impl-vs-model",
+                                   f"{len(differing)} of {len(la)} cases differ under every tie-break rule; shortest: case#{i} "
+                                   f"input={lines[i][:600]} impl={la[i][:300]} model={lb[i][:300]}")
         else:
             ctx.coverage["tiebreak_rule_matched"] = "000 (the source's strict comparisons)"
 
@@ -502,6 +516,12 @@ def run(ctx):
                     oracle_line(ctx, line, ms, res, None, col)
                 col.flush(ctx)
 
+    if ctx.tier == "thorough":
+        from vlib import sh
+        rc, out = sh(["timeout", "1500", "coqchk", "-o", "-silent", "-Q", ".", "M17", "M17.Properties_C02"], cwd=COQ, timeout=1600)
+        ctx.coverage["coqchk"] = " ".join(out.split())[-400:]
+        if rc != 0 or "Axioms: <none>" not in " ".join(out.split()):
+            ctx.broken.append(("proof", "coqchk", " ".join(out.split())[-400:]))
     ctx.notes.append("interpretation: the decoder minimises over all IN/2-bit inputs (free tail); 'optimal among zero-terminated code words' is "
                      "refuted by c02_viterbi_terminated_ml_refuted (W=4, IN=12, OUT=2, r=[5,-3,7,-3,0,7,0,7,7,5,-7,0]: returns 11, whose "
                      "terminated code word is at distance 60 while 01 is at 52) - an interpretation note, not a violation")
